@@ -14,7 +14,7 @@ rm -f libvore/seed_demo_test.go libvore/files/seed_demo_test.go
 [ -f seed_out/go.mod ] || echo "module seedout" > seed_out/go.mod
 run_demo() {
   if [ -f $sd/demo.sh ]; then
-    (cd $wt && sh $sd/demo.sh >/tmp/demo_$id$v.log 2>&1); return $?
+    (cd $wt && bash $sd/demo.sh >/tmp/demo_$id$v.log 2>&1); return $?
   fi
   pkgdir=libvore
   grep -q '^package files' $sd/demo_test.go && pkgdir=libvore/files
